@@ -215,7 +215,7 @@ def judge(ctx, prop, base, c, cmds, results, trace, step, post_oracle=None):
     return False
 
 
-def one_schedule(ctx, prop, base, cmds, point, mode, trace, prog, post_oracle=None, label=("A", "B"), env_extra=None):
+def one_schedule(ctx, prop, base, cmds, point, mode, trace, prog, post_oracle=None, label=("A", "B"), env_extra=None, calls=None):
     """A is parked right after `point` = (syscall, n-th occurrence on the store's files); B runs to completion (mode "complete") or takes the
     lock and is parked itself ("hold"); A resumes; B resumes.  Returns "violation", "skipped" or "ok"."""
     (reqA, agA, envA), (reqB, agB, envB) = cmds
@@ -225,24 +225,26 @@ def one_schedule(ctx, prop, base, cmds, point, mode, trace, prog, post_oracle=No
     c = crash.clone(base)
     pkA = pkB = None
     try:
-        pkA = sched.Parked(c, argvA, stdinA, tuple(point), env=envA)
+        pkA = sched.Parked(c, argvA, stdinA, tuple(point), env=envA, calls=calls)
         if not pkA.parked:
             pkA.wait(5); pkA = None
             return "skipped"
         atA = (strace.summarize(pkA.steps_at_park) or ["-"])[-1]
         step = {"A": argvA, "A_stdin": (stdinA or b"").decode("utf-8", "replace")[:2000], "B": argvB, "B_stdin": (stdinB or b"").decode("utf-8", "replace")[:2000],
-                "schedule": "A parked after its call %d (%s); B %s; A resumes%s" % (len(pkA.steps_at_park), atA, "runs to completion" if mode == "complete" else "takes the lock and is parked",
+                "schedule": "A parked after its call %d (%s); B %s; A resumes%s" % (len(pkA.steps_at_park), atA, "runs to completion" if mode == "complete" else ("takes the lock and is parked" if mode == "hold" else "takes the lock, reads the log and is parked"),
                                                                                   "" if mode == "complete" else "; B resumes"),
                 "A_program": prog,
                 # everything needed to run this schedule again: ./check <prop> --replay <file>
-                "explore2": {"reqA": reqA, "agentA": agA, "envA": envA, "reqB": reqB, "agentB": agB, "envB": envB, "park_point": list(point), "mode": mode}}
+                "explore2": {"reqA": reqA, "agentA": agA, "envA": envA, "reqB": reqB, "agentB": agB, "envB": envB, "park_point": list(point), "mode": mode, "calls": calls}}
         if mode == "complete":
             rb = c.exec(argvB, stdinB, env=envB, timeout=10)
             if rb.get("timeout"):
                 ctx.violation("%s command blocks waiting for the lock (%s)" % (prop, reqB["cmd"]), "B did not return within 10 s while A was parked", {"trace": trace + [step]}); return "violation"
             ra = pkA.resume(); pkA = None
         else:
-            pkB = sched.Parked(c, argvB, stdinB, ("flock", 1), env=envB)
+            # "hold": B stops right after it got the lock; "hold_read": after it has also read the log (it has decided, it has not written)
+            # (the first close on the store's files is that of the log after it has been read to its end: only then is B's snapshot complete)
+            pkB = sched.Parked(c, argvB, stdinB, ("flock", 1) if mode == "hold" else ("close", 1), env=envB)
             ra = pkA.resume(); pkA = None
             rb = pkB.resume() if pkB.parked else pkB.wait(10)
             pkB = None
@@ -278,6 +280,8 @@ def replay(ctx, doc, post_oracle=None):
     try:
         for st_ in trace[:-1]:
             if "argv" not in st_:
+                from .histories import apply_edit
+                apply_edit(base, st_)
                 continue
             if st_.get("bulk"):
                 doc_ = {"title": "bulk", "tasks": [{"title": "bulk %d" % i, "body": ("filler %d " % i) * 60} for i in range(st_["bulk"])]}
@@ -286,7 +290,7 @@ def replay(ctx, doc, post_oracle=None):
             base.exec(st_["argv"], None if st_.get("stdin") is None else st_["stdin"].encode(), env=st_.get("env"))
         cmds = [(x["reqA"], x["agentA"], x["envA"]), (x["reqB"], x["agentB"], x["envB"])]
         before = len(ctx.violations) if hasattr(ctx, "violations") else 0
-        out = one_schedule(ctx, doc.get("property", "?"), base, cmds, x["park_point"], x["mode"], trace[:-1], trace[-1].get("A_program"), post_oracle)
+        out = one_schedule(ctx, doc.get("property", "?"), base, cmds, x["park_point"], x["mode"], trace[:-1], trace[-1].get("A_program"), post_oracle, calls=x.get("calls"))
         print("schedule:", trace[-1]["schedule"]); print("outcome:", out)
         return 1 if out == "violation" else 0
     finally:
@@ -294,8 +298,9 @@ def replay(ctx, doc, post_oracle=None):
 
 
 def explore(ctx, prop, r, kindsA=None, kindsB=None, points="all", b_modes=("complete", "hold"), max_points=4, state_cmds=10, big=0, post_oracle=None, weights=None, legacy=False, env_extra=None,
-            torn=False, missing_lock=False):
-    """torn: the log ends in the fragment of a killed writer (the first writer repairs it); missing_lock: `.ergo/lock` is not there (a fresh
+            torn=False, missing_lock=False, with_stat=False):
+    """with_stat: A's stat-like calls on the store's files count as places to park it as well (a process that has just *looked* whether a file is
+    there and acts on the answer a moment later); torn: the log ends in the fragment of a killed writer (the first writer repairs it); missing_lock: `.ergo/lock` is not there (a fresh
     checkout, a cleaned tree: it is not state and is re-created on demand) — whoever re-creates it, there is still one lock"""
     base, v, trace = crash.build_state(ctx, r, state_cmds + r.n(8), big=big, legacy=legacy, torn=torn, **({"weights": weights} if weights else {}))
     if missing_lock:
@@ -311,9 +316,10 @@ def explore(ctx, prop, r, kindsA=None, kindsB=None, points="all", b_modes=("comp
         cmds = [(reqA, agA, {"VERIF_RAND": str(r.next() % (1 << 40))}), (reqB, agB, {"VERIF_RAND": str(r.next() % (1 << 40))})]
         argvA, stdinA = cmdrun.argv_of(reqA, agA), cmdrun.stdin_of(reqA)
         argvB, stdinB = cmdrun.argv_of(reqB, agB), cmdrun.stdin_of(reqB)
+        callsA = (strace.CALLS + "," + strace.STAT_CALLS) if with_stat else None
         solo = crash.clone(base)
         try:
-            _, _, _, stepsA = strace.run(solo, argvA, stdinA, env=cmds[0][2])
+            _, _, _, stepsA = strace.run(solo, argvA, stdinA, env=cmds[0][2], calls=callsA)
         finally:
             solo.close()
         if not stepsA:
@@ -326,7 +332,11 @@ def explore(ctx, prop, r, kindsA=None, kindsB=None, points="all", b_modes=("comp
             un = [i for i, s in enumerate(stepsA, 1) if s["call"] == "flock" and "LOCK_UN" in s.get("flags", [])]
             lk = [i for i, s in enumerate(stepsA, 1) if s["call"] == "flock" and "LOCK_UN" not in s.get("flags", [])]
             rd = [i for i, s in enumerate(stepsA, 1) if s["call"] in ("read", "pread64") and s["obj"] == "log"]
-            must = sorted(set([1] + lk[:1] + [l - 1 for l in lk if l > 1] + rd[:1] + [u - 1 for u in un[:1]] + un + [len(pts) - 1]))
+            # right after the log was opened for appending (the descriptor is bound to a file that a tail repair by somebody else would replace)
+            ap = [i for i, s in enumerate(stepsA, 1) if s["call"] == "openat" and s["obj"] == "log" and "O_APPEND" in s.get("flags", [])]
+            # right after each look at the lock file that found nothing (stat / open returning ENOENT)
+            st_ = [i for i, s in enumerate(stepsA, 1) if s["obj"] == "lock" and s.get("ret") == "-1"]
+            must = sorted(set([1] + lk[:1] + [l - 1 for l in lk if l > 1] + rd[:1] + ap[:1] + st_[:3] + [u - 1 for u in un[:1]] + un + [len(pts) - 1]))
             must = [i for i in must if 1 <= i <= len(pts)]
             extra = [i for i in idx if i not in must]
             while len(must) < max_points and extra:
@@ -334,7 +344,7 @@ def explore(ctx, prop, r, kindsA=None, kindsB=None, points="all", b_modes=("comp
             idx = sorted(must)
         for k in idx:
             for mode in b_modes:
-                out = one_schedule(ctx, prop, base, cmds, pts[k - 1], mode, trace, prog, post_oracle, label=(labA, labB), env_extra=env_extra)
+                out = one_schedule(ctx, prop, base, cmds, pts[k - 1], mode, trace, prog, post_oracle, label=(labA, labB), env_extra=env_extra, calls=callsA)
                 if out == "violation":
                     return
     finally:
